@@ -85,6 +85,9 @@ def random_op(st, rng: random.Random, *, D, typed=False, kinds=(0,), xids=(0,), 
         if f == "add_tree" and room >= src_n:
             p = rng.choice(parents)
             v = rng.random()
+            if v < 0.06:
+                return {"name": rng.choice(["add_empty_tree", "empty_tree_copy_to"]), "p": p, "deep": True,
+                        "pos": random_pos(st, p, rng, oob=False)}
             if v < 0.5:
                 return {"name": "add_tree", "p": p, "deep": rng.random() < 0.6, "pos": random_pos(st, p, rng)}
             if v < 0.7:
